@@ -4,7 +4,7 @@ from wallet_common import *
 
 MANIFEST_ENTRY = dict(
     cat="model_checking", ref="DESIGN.md 4 C18", engine="wallet-tla",
-    text='TLC explores sends confirmed in a block that a longer fork of depth 1..2 then replaces (with and without the transaction, re-mined later, flip-flops bounded by 2 forks) with scans and refreshes at every point, and checks RevertedReported / RevertedRestored / ScanEqualsTruth on the model; on the real code the forks are real reorganisations of the real chain (competing blocks built on an earlier header), and TLC checks after every scan that a confirmed incoming payment whose output left the chain and whose kernel is gone is reported TxReverted / Reverted (so that the reported spendable and total, judged by InfoPartition, exclude it), that no Unspent record of the active account is missing from the chain (orphaned coinbases included), and after every refresh that a reverted output which is back on chain is confirmed and spendable again.',
+    text='TLC explores sends confirmed in a block that a longer fork of depth 1..2 then replaces (with and without the transaction, re-mined later, flip-flops bounded by 2 forks) with scans and refreshes at every point, and checks RevertedReported / RevertedRestored / ScanEqualsTruth on the model; on the real code the forks are real reorganisations of the real chain (competing blocks built on an earlier header), and TLC checks after every scan that a confirmed incoming payment whose output left the chain and whose kernel is gone is reported TxReverted / Reverted (so that the reported spendable and total, judged by InfoPartition, exclude it), that no Unspent record of the active account is missing from the chain (orphaned coinbases included), and after every refresh that a reverted output which is back on chain is confirmed and spendable again; a directed behaviour does the same in a recipient with two accounts whose logs hold entries with equal ids.',
     technique="TLC model checking of spec/MCWallet.tla (Fork/Restore/Scan/Diverge actions) + TLC-generated behaviours replayed on the real code and chain + TLC trace validation (spec/TraceWallet.tla) against the real chain's UTXO set",
     note=WALLET_NOTE)
 
